@@ -64,30 +64,51 @@ CheckWitness(a, signers, ctx) == a \in signers \/ (ctx # <<>> /\ ctx[Len(ctx)] =
 VARIABLES call, verdict, changed
 vars == <<call, verdict, changed>>
 
-Calls == {[m |-> m, named |-> n, signers |-> s, ctx |-> c, due |-> d] :
-            m \in Methods, n \in Actors \cup {"-", "C1", "zero"}, s \in SUBSET Actors, c \in SeqsUpTo(Contracts, CtxDepth), d \in BOOLEAN}
-WellFormed(c) == /\ c.named \in NamedFor(c.m)
-                 /\ (c.due => c.m = "nm.commitDpos")
-                 /\ (c.named # "C1" => Len(c.ctx) <= 1 /\ (c.ctx # <<>> => c.ctx = <<"C2">>))   \* nesting only where it matters
+(* commitDpos: "before it is due" is arithmetic on 32-bit quantities, so the epoch configuration is part of the call.  An epoch
+   lasts mb blocks (MaxBlockChangeView), the current one began at height vh (governanceView.Height), the call is made at height
+   vh + mb + delta: due exactly when delta >= 0 - mathematically, whatever the word size.  TLC integers are 32-bit, so the
+   numbers are two 16-bit limbs <<hi, lo>>; a call is offered only if its height fits in 32 bits. *)
+B == 65536
+EpochLens == [min |-> <<0, 10000>>, typ |-> <<1, 34464>>, p31 |-> <<32768, 0>>, max32 |-> <<65535, 65535>>]   \* 10 000, 100 000, 2^31, 2^32-1
+ViewHeights == [zero |-> <<0, 0>>, one |-> <<0, 1>>, large |-> <<32768, 0>>]                                  \* 0, 1, 2^31
+Norm(h, l) == IF l < 0 THEN <<h - 1, l + B>> ELSE IF l >= B THEN <<h + 1, l - B>> ELSE <<h, l>>
+HeightAt(mb, vh, delta) == LET a == Norm(ViewHeights[vh][1] + EpochLens[mb][1], ViewHeights[vh][2] + EpochLens[mb][2])
+                           IN Norm(a[1], a[2] + delta)
+Fits32(x) == x[1] >= 0 /\ x[1] < B
+Epochs == {[mb |-> mb, vh |-> vh, delta |-> d] : mb \in DOMAIN EpochLens, vh \in DOMAIN ViewHeights, d \in {-1, 0, 1}}
+NoEpoch == [mb |-> "-", vh |-> "-", delta |-> 0]
+Due(c) == c.m = "nm.commitDpos" /\ c.ep.delta >= 0
+
+(* the well-formed calls, enumerated without building the full product *)
+CtxFor(named) == IF named = "C1" THEN SeqsUpTo(Contracts, CtxDepth)
+                 ELSE IF CtxDepth = 0 THEN {<<>>} ELSE {<<>>, <<"C2">>}          \* nesting only where it matters
+EpochsFor(m) == IF m = "nm.commitDpos" THEN {e \in Epochs : Fits32(HeightAt(e.mb, e.vh, e.delta))} ELSE {NoEpoch}
+IsCall(c) == /\ c.m \in Methods /\ c.named \in NamedFor(c.m) /\ c.signers \subseteq Actors
+             /\ c.ctx \in CtxFor(c.named) /\ c.ep \in EpochsFor(c.m)
 
 Witnessed(c) == CheckWitness(Required(c.m, c.named), c.signers, c.ctx)
-Allowed(c) == Witnessed(c) \/ (c.m = "nm.commitDpos" /\ c.due)     \* once the epoch is due anybody may commit it
+Allowed(c) == Witnessed(c) \/ Due(c)     \* once the epoch is due anybody may commit it
 
-Init == /\ call \in {c \in Calls : WellFormed(c)}
+Init == /\ \E m \in Methods : \E n \in NamedFor(m) : \E sg \in SUBSET Actors : \E cx \in CtxFor(n) : \E e \in EpochsFor(m) :
+              call = [m |-> m, named |-> n, signers |-> sg, ctx |-> cx, ep |-> e]
         /\ verdict = "pending" /\ changed = FALSE
 Decide == /\ verdict = "pending"
           /\ verdict' = IF Allowed(call) THEN "accept" ELSE "reject"
           /\ changed' = Allowed(call)
           /\ UNCHANGED call
           /\ (~EmitOn \/ PrintT(<<"ROW", ToJson([m |-> call.m, named |-> call.named, signers |-> call.signers, ctx |-> call.ctx,
-                                                  due |-> call.due, expect |-> verdict', witnessed |-> Witnessed(call)])>>))
+                                                  due |-> Due(call), ep |-> call.ep,
+                                                  mbv |-> IF call.ep = NoEpoch THEN <<0, 0>> ELSE EpochLens[call.ep.mb],
+                                                  vhv |-> IF call.ep = NoEpoch THEN <<0, 0>> ELSE ViewHeights[call.ep.vh],
+                                                  hv |-> IF call.ep = NoEpoch THEN <<0, 0>> ELSE HeightAt(call.ep.mb, call.ep.vh, call.ep.delta),
+                                                  expect |-> verdict', witnessed |-> Witnessed(call)])>>))
 Next == Decide
 Spec == Init /\ [][Next]_vars
 
 (* PropC18 ******************************************************************)
 (* over the observation alphabet: who was required, was the witness there, what happened *)
 C18Row(witnessed, due, result, stateChanged) == (~witnessed /\ ~due) => (result = "reject" /\ ~stateChanged)
-PropC18 == verdict # "pending" => C18Row(Witnessed(call), call.m = "nm.commitDpos" /\ call.due, verdict, changed)
+PropC18 == verdict # "pending" => C18Row(Witnessed(call), Due(call), verdict, changed)
 
 (* table sanity: the three classes are disjoint, every method has exactly one required-witness rule *)
 TableOK == /\ OperatorMethods \cap OwnerMethods = {} /\ OperatorMethods \cap SelfMethods = {} /\ OwnerMethods \cap SelfMethods = {}
